@@ -10,7 +10,7 @@ CLAIMED = {
          GEN + ' Every case is judged against the meaning of the operation (exact winding number of integer probe points placed in the faces of the arrangement), not against golden vertex lists.',
          KIT + ' Faces thinner than ~3 units are not probed (inside the band). Listed finding F30 (input class kit.NearDegenerate) is excused and counted; F29 (discarded lobes) was repaired and is not excused any more.', 'DESIGN.md section 7 C01'),
  'C02': ('property-based testing (rapid): validity predicate over generated boolean results (vertex rules, winding in {0,1} off the solution edges, re-union and option metamorphic relations)',
-         GEN, KIT + ' preserveCollinear / reverseSolution are set through the verif hook. Listed finding F30 excused by input class (for the re-union step the solution itself counts as input).', 'DESIGN.md section 7 C02'),
+         GEN, KIT + ' preserveCollinear / reverseSolution are set through the verif hook. Listed finding F30 excused by input class (for the re-union step the solution itself counts as input); listed finding F50 (one exact input, witness replayed first) is not root-caused and silences nothing but itself.', 'DESIGN.md section 7 C02'),
  'C03': ('property-based testing (rapid) over a grammar of every exported operation with hostile arguments and with the dense polygon families of the boolean checks; in-process watchdog for calls that do not return',
          GEN + ' Every call is judged for: no panic (except the documented precision-range panic), Execute* returns true, returns within 10 s.',
          'The 10 s deadline uses the wall clock (hang detection only). Resource-shaped preconditions are listed in the evidence assumptions.', 'DESIGN.md section 7 C03'),
